@@ -275,6 +275,11 @@ def enum_paths(body, max_paths=4000, start=0, env0=None, unroll=False):
                     nm = body.upvars.get(e["f"])
                 if t[0] == "agg" and t[1] in ("tuple", "adt", "closure") and e["f"] < len(t[4]):
                     t = t[4][e["f"]]
+                elif t[0] == "downcast" and t[1][0] == "agg" and t[1][1] == "adt" and t[1][3] == t[2] and e["f"] < len(t[1][4]):
+                    t = t[1][4][e["f"]]      # payload of a locally built enum value
+                elif (t[0] == "downcast" and t[2] == "Continue" and e["f"] == 0 and t[1][0] == "call" and t[1][1].endswith("ops::Try>::branch")
+                      and len(t[1][2]) == 1 and t[1][2][0][0] == "agg" and t[1][2][0][1] == "adt" and t[1][2][0][3] in ("Ok", "Some") and t[1][2][0][4]):
+                    t = t[1][2][0][4][0]     # `Ok(x)?` is x
                 else:
                     t = ("field", t, nm if nm is not None else e["f"], e["f"], e.get("adt"))
             elif isinstance(e, dict) and "idx" in e:
@@ -447,6 +452,24 @@ def enum_paths(body, max_paths=4000, start=0, env0=None, unroll=False):
                                 for dk, dn in tab.items():
                                     if dn == vname:
                                         v = dk
+                    if v is not None:
+                        taken = t["otherwise"]
+                        for val, tb in t["targets"]:
+                            if val == v:
+                                taken = tb
+                elif dv[0] == "discr" and dv[1][0] == "call" and dv[1][1] in TRY_BRANCH and len(dv[1][2]) == 1:
+                    # `?` applied to a value whose variant is known on this path (an inlined helper's
+                    # `Ok(..)` / early `Err(..)?`): Continue = 0, Break = 1
+                    x = dv[1][2][0]
+                    while x[0] in ("ref", "deref"):
+                        x = x[1]
+                    v = None
+                    if x[0] == "agg" and x[1] == "adt" and x[3] in ("Ok", "Some"):
+                        v = 0
+                    elif x[0] == "agg" and x[1] == "adt" and x[3] in ("Err", "None"):
+                        v = 1
+                    elif x[0] == "call" and x[1].startswith(FROM_RESIDUAL_PREFIX):
+                        v = 1
                     if v is not None:
                         taken = t["otherwise"]
                         for val, tb in t["targets"]:
